@@ -38,9 +38,12 @@ def run_case(arg):
     out = []
     sr, sc, dr, dc = case["sr"], case["sc"], case["dr"], case["dc"]
     n = sr * sc
-    data = np.array(case["data"], dtype=np.float32).reshape(sr, sc, dr, dc)
+    # the same counts in several storage types, incl. non-native byte order (what big-endian files give); float32
+    # big-endian is left out (torch.tensor refuses it on every tree)
+    store_dt = [np.float32, "<u2", ">u2", ">f8", np.int32, ">i4", np.float64][idx % 7]
+    data = np.array(case["data"], dtype=np.float64).reshape(sr, sc, dr, dc).astype(store_dt)
     com = np.array([[c[0][0] / c[0][1], c[1][0] / c[1][1]] for c in case["com"]])   # (n, 2) row, col
-    tag = f"scan={sr}x{sc} det={dr}x{dc} case={idx}"
+    tag = f"scan={sr}x{sc} det={dr}x{dc} dtype={np.dtype(store_dt).str} case={idx}"
 
     def bad(key, msg):
         out.append((key, f"{tag}: {msg}"))
@@ -69,10 +72,10 @@ def run_case(arg):
                     bad(f"C18:dataset-model:{'vectorized' if vec else 'looped'}:com",
                         f"max error {np.abs(got - com).max():.4f} (got {got[0]}, exact {com[0]})")
             # 3. get_com_2d on numpy and torch
-            g = np.asarray(get_com_2d(data.reshape(n, dr, dc).astype(np.float64)))
+            g = np.asarray(get_com_2d(np.asarray(data, dtype=np.float64).reshape(n, dr, dc)))
             if g.shape != (n, 2) or np.abs(g - com).max() > TOL:
                 bad("C18:get_com_2d:numpy", f"max error {np.abs(g - com).max():.4f}")
-            gt = get_com_2d(torch.tensor(data.reshape(n, dr, dc))).numpy()
+            gt = get_com_2d(torch.tensor(np.asarray(data, dtype=np.float32).reshape(n, dr, dc))).numpy()
             if np.abs(gt - com).max() > TOL:
                 bad("C18:get_com_2d:torch", f"max error {np.abs(gt - com).max():.4f}")
             if not np.array_equal(np.asarray(ds.array), data):
